@@ -20,11 +20,12 @@ if [ -f "$D/demo.py" ]; then
   (cd $S && timeout 60 ./gpy.mut zz_seed_demo/demo.py >/tmp/seed_mut.out 2>&1; echo "demo with change: exit=$? $(grep -m1 -i 'panic\|FAIL\|Error' /tmp/seed_mut.out | cut -c1-100)")
 fi
 if [ -f "$D/demo_test.go" ]; then
-  # a Go test for package repl: passes without the change, fails with it
-  cp "$D/demo_test.go" $S/repl/zz_demo_test.go
-  (cd $S && go test -count=1 -run TestDemo ./repl/ >/tmp/seed_mut.out 2>&1; echo "demo test with change: exit=$? $(grep -m1 -- '--- FAIL\|^ok\|FAIL' /tmp/seed_mut.out | cut -c1-100)")
-  (cd $S && patch -R -p1 -s < "$D/patch.diff" && go test -count=1 -run TestDemo ./repl/ >/tmp/seed_base.out 2>&1; echo "demo test without change: exit=$? $(grep -m1 -- '--- FAIL\|^ok\|FAIL' /tmp/seed_base.out | cut -c1-100)"; patch -p1 -s < "$D/patch.diff")
-  rm -f $S/repl/zz_demo_test.go
+  # an in-package Go test (package repl, compile, ...): passes without the change, fails with it
+  PKG=$(grep -m1 '^package ' "$D/demo_test.go" | awk '{print $2}')
+  cp "$D/demo_test.go" $S/$PKG/zz_demo_test.go
+  (cd $S && go test -count=1 -run TestDemo ./$PKG/ >/tmp/seed_mut.out 2>&1; echo "demo test with change: exit=$? $(grep -m1 -- '--- FAIL\|^ok\|FAIL' /tmp/seed_mut.out | cut -c1-100)")
+  (cd $S && patch -R -p1 -s < "$D/patch.diff" && go test -count=1 -run TestDemo ./$PKG/ >/tmp/seed_base.out 2>&1; echo "demo test without change: exit=$? $(grep -m1 -- '--- FAIL\|^ok\|FAIL' /tmp/seed_base.out | cut -c1-100)"; patch -p1 -s < "$D/patch.diff")
+  rm -f $S/$PKG/zz_demo_test.go
 fi
 rm -rf $S/gpy.base $S/gpy.mut $S/zz_seed_demo
 for P in "$@"; do
